@@ -2117,6 +2117,18 @@ let track_op cfg m o ob =
      | Some x ->
        (match x.ri_stat with
         | SLive ->
+          let m1 =
+            match x.ri_stat with
+            | SLive ->
+              (match x.ri_popx with
+               | Some c ->
+                 (match nth_error m.m_conns c with
+                  | Some y ->
+                    if y.ci_share then m else ci_upd (set_ci_back m.m_i) c m
+                  | None -> m)
+               | None -> m)
+            | _ -> m
+          in
           ri_upd (fun y ->
             set_ri_pend false
               (set_ri_stat SCancelled
@@ -2125,8 +2137,20 @@ let track_op cfg m o ob =
                    (match y.ri_dial with
                     | DsFlying -> set_ri_aband true y
                     | _ -> y)
-                 | _ -> y))) r m
+                 | _ -> y))) r m1
         | SHeld _ ->
+          let m1 =
+            match x.ri_stat with
+            | SLive ->
+              (match x.ri_popx with
+               | Some c ->
+                 (match nth_error m.m_conns c with
+                  | Some y ->
+                    if y.ci_share then m else ci_upd (set_ci_back m.m_i) c m
+                  | None -> m)
+               | None -> m)
+            | _ -> m
+          in
           ri_upd (fun y ->
             set_ri_pend false
               (set_ri_stat SCancelled
@@ -2135,7 +2159,7 @@ let track_op cfg m o ob =
                    (match y.ri_dial with
                     | DsFlying -> set_ri_aband true y
                     | _ -> y)
-                 | _ -> y))) r m
+                 | _ -> y))) r m1
         | _ -> m)
      | None -> m)
   | Upgrade r ->
